@@ -240,7 +240,7 @@ theorem exec_cons (env : Env) (p : Prog) : ∀ (ctx : Ctx) (gas : Nat) (w : Worl
     split; · exact Cons.refl h
     split
     · exact Cons.refl h
-    · have h1 : Cons w { w with logs := ⟨ctx.self, topics⟩ :: w.logs } := ⟨h, rfl, id⟩
+    · have h1 : Cons w { w with logs := ⟨ctx.self, topics, w.logSize⟩ :: w.logs, logSize := w.logSize + 1 } := ⟨h, rfl, id⟩
       exact h1.trans (ih _ _ _ _ h1.wf)
   | call kind pre mem addr value gasSpec callee rest ihc ihr =>
     intro ctx gas w tr h; unfold exec
